@@ -1,7 +1,7 @@
 SPECIFICATION Spec
 CONSTANTS
-  MaxPeer = 4
-  MaxLocal = 4
+  MaxPeer = 3
+  MaxLocal = 3
   MaxObj = 3
   Configs <- HoldConfigs
   Lite = TRUE
